@@ -50,9 +50,9 @@ def check_pixel(project: Project, rep, weight, kernel, sigma, skew, label):
     mis = [ev for ev in I.log if ev["kind"] == "zip-misaligned"]
     if mis:
         rep.refuted("PI-PIXEL", fi, mis[0]["node"],
-                    f"{tag}: per-point values are paired BY POSITION with a row selection of the diagram (index spaces "
-                    f"{[str(k)[:60] for k in mis[0]['spaces']]}): once a point is filtered out, every later point is accumulated "
-                    f"with another point's weight, so a pixel is no longer Σ weight × kernel mass",
+                    f"{tag}: per-point values are paired BY POSITION with a row selection or a block of the rows of the diagram "
+                    f"(index spaces {[str(k)[:60] for k in mis[0]['spaces']]}): once a point is filtered out / from the second "
+                    f"block on, a point is accumulated with another point's weight, so a pixel is no longer Σ weight × kernel mass",
                     construct=f"{TR}: positional pairing after a one-sided row filter")
         return
     if not isinstance(r, Arr) or r.ndim != 2:
